@@ -551,14 +551,21 @@ Lemma add_following_step x src q w w' : ainv w -> w_find w x <> None ->
   run_fresh (add_following x (src :: q)) w = true -> run_a (add_following x (src :: q)) w = (w', ROk) ->
   exists w0 w1 n, offered w w0 x src n /\ ainv w0 /\ moved (pos_follow x) w0 w1 n /\ ainv w1 /\ w_find w1 n <> None /\
                   run_a (add_following n q) w1 = (w', ROk) /\ run_fresh (add_following n q) w1 = true /\
-                  (forall y, y <> n -> w_find w0 y = w_find w y).
+                  (forall y, y <> n -> w_find w0 y = w_find w y) /\ is_ancestor_or_self w0 n x = false /\ is_loose w0 n = true.
 Proof.
   intros I Hx Hfr Hrun. cbn [add_following] in *.
   destruct (prepare_inv _ _ _ _ _ _ I Hx Hfr Hrun) as (w0 & n & Hoff & I0 & Hl & Ha & Hp & Hk & Hf & Hfind & _).
   cbn [run_a run_fresh] in Hk, Hf. apply andb_true_iff in Hf as [_ Hf].
   destruct (step_follow w0 x n I0 Hl Ha (Hp x eq_refl)) as [M I1].
   exists w0, (apply_a (UAddFollowing x n) w0), n. split; [exact Hoff|]. split; [exact I0|]. split; [exact M|]. split; [exact I1|].
-  split; [|auto]. apply find_node. eapply moved_keeps_nodes; [exact M|]. apply find_node. apply loose_exists; assumption.
+  split; [|auto 6]. apply find_node. eapply moved_keeps_nodes; [exact M|]. apply find_node. apply loose_exists; assumption.
+Qed.
+
+Lemma kid_inside w p l : node_of w p <> None -> In l (kids_of w p) -> is_ancestor_or_self w p l = true.
+Proof.
+  intros Hp Hl. apply find_node in Hp. unfold is_ancestor_or_self. destruct (w_find w p) as [t|] eqn:Ef; [|contradiction].
+  rewrite (kids_of_find _ _ _ Ef) in Hl. destruct (t_find l t) eqn:E; [reflexivity|]. exfalso. apply t_find_none_ids in E. apply E.
+  destruct t as [i pl kids]. rewrite ids_eq. right. cbn [ikids] in Hl. apply in_map_iff in Hl as (k & <- & Hk). apply in_flat_map. exists k. split; [exact Hk|apply iid_in_ids].
 Qed.
 
 Lemma follow_to_split w w1 n l p K0 Iv : ainv w -> moved (pos_follow l) w w1 n -> node_of w p <> None ->
@@ -577,7 +584,7 @@ Lemma moved_weaken (Pos Pos' : nid -> list nid -> list nid -> Prop) w w' n :
   (forall P La Lb, Pos P La Lb -> Pos' P La Lb) -> moved Pos w w' n -> moved Pos' w w' n.
 Proof. intros H (P & p & La & Lb & H1 & H2 & H3 & H4). exists P, p, La, Lb. repeat split; auto; apply H4. Qed.
 
-Lemma offered_vis F w w0 ctx src n p : offered w w0 ctx src n -> ainv w -> node_of w p <> None ->
+Lemma offered_vis w w0 ctx src n p : offered w w0 ctx src n -> ainv w -> node_of w p <> None ->
   forall y, In y (kids_of w p) -> node_of w0 y = node_of w y.
 Proof.
   intros Hoff I Hp y Hy. pose proof (in_kids_exists _ _ _ I Hp Hy) as Hex. destruct src as [m|f s|f name]; cbn [offered] in Hoff.
@@ -608,7 +615,7 @@ Proof.
     destruct (prepare_inv _ _ _ _ _ _ I Hpex Hfr Hrun1) as (w0 & n & Hoff & I0 & Hl & Ha & _ & Hk & Hf & Hfind & _).
     pose proof (not_self_ancestor _ _ _ I0 Hl Ha) as Hne.
     assert (Hnode : node_of w0 p = node_of w p) by (rewrite !w_find_node_of, (Hfind p Hne); reflexivity).
-    pose proof (offered_vis F _ _ _ _ _ p Hoff I Hpn) as Hkv.
+    pose proof (offered_vis _ _ _ _ _ p Hoff I Hpn) as Hkv.
     assert (Hvis0 : filter (vis_id F w0) (kids_of w0 p) = []).
     { rewrite (kids_of_transfer _ _ _ Hnode), (filter_vis_transfer F w w0 _ Hkv). exact Evis. }
     assert (Hp0 : kind_is w0 p (nkind_eqb NTag) = true) by (rewrite (kind_is_transfer w w0 p _ (Hfind p Hne)); exact Hp).
@@ -623,15 +630,14 @@ Proof.
     assert (Hlk : In l (kids_of w p)) by (rewrite Ek; apply in_or_app; right; left; reflexivity).
     assert (Hlex : w_find w l <> None) by (apply find_node; eapply in_kids_exists; eassumption).
     destruct srcs as [|src q]; [cbn [add_following run_a] in Hrun1; injection Hrun1 as <-; auto|].
-    destruct (add_following_step l src q w w' I Hlex Hfr Hrun1) as (w0 & w1 & n & Hoff & I0 & M & I1 & Hn1 & Hk1 & Hf & Hfind).
+    destruct (add_following_step l src q w w' I Hlex Hfr Hrun1) as (w0 & w1 & n & Hoff & I0 & M & I1 & Hn1 & Hk1 & Hf & Hfind & Ha & Hl).
     destruct (add_following_sound q n w1 w' I1 Hn1 Hf Hk1) as [C I'].
     split; [|exact I']. exists l, w0, w1, n. split; [exact Hoff|]. split; [|exact C].
     (* the last visible child is a child of p, also in w0 *)
-    pose proof (offered_vis F _ _ _ _ _ p Hoff I Hpn) as Hkv.
+    pose proof (offered_vis _ _ _ _ _ p Hoff I Hpn) as Hkv.
     assert (Hpne : p <> n).
-    { intros ->. destruct M as (P & pl & La & Lb & Hin & _). destruct src as [m|f s|f name]; cbn [offered] in Hoff.
-      - destruct Hoff as (-> & -> & Hm). (* a parentless node has no child list containing... *)
-        destruct (node_of_kids _ _ Hpn) as (pl' & Hnp). (* n = p parentless, l its child: fine, but then n is an ancestor of l *) admit.
+    { intros ->. destruct src as [m|f s|f name]; cbn [offered] in Hoff.
+      - destruct Hoff as (_ & -> & _). rewrite (kid_inside w n l Hpn Hlk) in Ha. discriminate.
       - destruct Hoff as (-> & Hnone & _). contradiction.
       - destruct Hoff as (-> & ns & _ & Hnone & _). contradiction. }
     assert (Hnode : node_of w0 p = node_of w p) by (apply (offered_node_of _ _ _ _ _ _ Hoff Hpne)).
@@ -640,4 +646,387 @@ Proof.
     pose proof (follow_to_split w0 w1 n l p K0 Iv I0 M Hp0 Hk0) as M2.
     eapply moved_weaken; [|exact M2]. intros P La Lb (-> & _ & ->). split; [reflexivity|].
     apply (invisible_transfer F w w0); [|exact HIv]. intros y Hy. apply Hkv. rewrite Ek. apply in_or_app. right. right. exact Hy.
-Admitted.
+Qed.
+
+(* ------------------------------------------------------------------ insert_children / prepend_children *)
+Lemma nth_filter_split {X} (v : X -> bool) ks : forall j y, nth_error (filter v ks) j = Some y ->
+  exists K0 R, ks = K0 ++ y :: R /\ length (filter v K0) = j /\ v y = true.
+Proof.
+  induction ks as [|a ks IH]; intros j y H; [destruct j; discriminate|]. cbn [filter] in H. destruct (v a) eqn:Ea.
+  - destruct j as [|j]; cbn [nth_error] in H.
+    + injection H as <-. exists [], ks. auto.
+    + destruct (IH _ _ H) as (K0 & R & -> & H1 & H2). exists (a :: K0), R. cbn [app filter]. rewrite Ea. cbn [length]. auto.
+  - destruct (IH _ _ H) as (K0 & R & -> & H1 & H2). exists (a :: K0), R. cbn [app filter]. rewrite Ea. auto.
+Qed.
+
+Definition insert_rest (F : filt) (p : nid) (n : nat) (q : list nsrc) : prog :=
+  match q with
+  | [] => Ret ROk
+  | _ => Ask (fun w' => match nth_vis F w' p n with Some y => add_following y q | None => Ret (Crash EIndexError) end)
+  end.
+Lemma insert_rest_sound F p i q w1 w' : ainv w1 -> node_of w1 p <> None -> run_fresh (insert_rest F p i q) w1 = true ->
+  run_a (insert_rest F p i q) w1 = (w', ROk) ->
+  match q with [] => w' = w1 | _ => exists y, nth_visible F w1 p i = Some y /\ chain_follow w1 y q w' end /\ ainv w'.
+Proof.
+  intros I Hp Hfr Hrun. destruct q as [|s r]; cbn [insert_rest run_a run_fresh] in *.
+  - injection Hrun as <-. auto.
+  - pose proof I as [[N _] _]. unfold nth_vis in *. rewrite (vis_children_ids F w1 p N) in *.
+    destruct (nth_error (filter (vis_id F w1) (kids_of w1 p)) i) as [y|] eqn:Ey; [|cbn in Hrun; discriminate].
+    assert (Hy : w_find w1 y <> None).
+    { apply find_node. apply (in_kids_exists w1 p y I Hp). destruct (nth_filter_split _ _ _ _ Ey) as (K0 & R & -> & _). apply in_or_app. right. left. reflexivity. }
+    destruct (add_following_sound (s :: r) y w1 w' I Hy Hfr Hrun) as [C I']. split; [|exact I']. exists y. auto.
+Qed.
+Lemma moved_parent_node Pos w w1 n p : moved Pos w w1 n -> node_of w p <> None -> node_of w1 p <> None.
+Proof. apply moved_keeps_nodes. Qed.
+
+Lemma insert_sound F p i srcs w w' : ainv w -> run_fresh (insert_children F p i srcs) w = true ->
+  run_a (insert_children F p i srcs) w = (w', ROk) ->
+  match srcs with
+  | [] => False
+  | s :: r => exists ctx w0 w1 n, offered w w0 ctx s n /\ moved (pos_index F w0 p (Z.to_nat i)) w0 w1 n /\
+                match r with [] => w' = w1 | _ => exists y, nth_visible F w1 p (Z.to_nat i) = Some y /\ chain_follow w1 y r w' end
+  end /\ ainv w'.
+Proof.
+  intros I Hfr Hrun. unfold insert_children in *. destruct (on_tag_inv _ _ _ _ Hrun) as (Hp & Hrun1 & Hf1). rewrite Hf1 in Hfr.
+  clear Hrun Hf1. cbn [run_a run_fresh] in Hrun1, Hfr. pose proof I as [[N S] T]. unfold nth_vis in *. rewrite (vis_children_ids F w p N) in *.
+  pose proof (kind_is_exists _ _ _ Hp) as Hpex. pose proof (proj1 (find_node w p) Hpex) as Hpn.
+  destruct (i <? 0)%Z; [cbn in Hrun1; discriminate|].
+  destruct (Nat.ltb (length (filter (vis_id F w) (kids_of w p))) (Z.to_nat i)); [cbn in Hrun1; discriminate|].
+  destruct srcs as [|src q]; [cbn in Hrun1; discriminate|].
+  change (match q with [] => Ret ROk | _ :: _ => Ask (fun w' => match nth_error (vis_children F w' p) (Z.to_nat i) with Some y => add_following y q | None => Ret (Crash EIndexError) end) end)
+    with (insert_rest F p (Z.to_nat i) q) in *.
+  destruct (Z.to_nat i) as [|n'] eqn:Ei.
+  - destruct (filter (vis_id F w) (kids_of w p)) as [|y rest] eqn:Evis.
+    + (* no visible child *)
+      destruct (prepare_inv _ _ _ _ _ _ I Hpex Hfr Hrun1) as (w0 & n & Hoff & I0 & Hl & Ha & _ & Hk & Hf & Hfind & _).
+      pose proof (not_self_ancestor _ _ _ I0 Hl Ha) as Hne.
+      assert (Hnode : node_of w0 p = node_of w p) by (rewrite !w_find_node_of, (Hfind p Hne); reflexivity).
+      pose proof (offered_vis _ _ _ _ _ p Hoff I Hpn) as Hkv.
+      assert (Hvis0 : filter (vis_id F w0) (kids_of w0 p) = []) by (rewrite (kids_of_transfer _ _ _ Hnode), (filter_vis_transfer F w w0 _ Hkv); exact Evis).
+      assert (Hp0 : kind_is w0 p (nkind_eqb NTag) = true) by (rewrite (kind_is_transfer w w0 p _ (Hfind p Hne)); exact Hp).
+      destruct (add_first_child_sound F p n _ w0 w' I0 Hl Ha Hp0 Hvis0 Hk) as (w1 & M & I1 & Hk1 & Hf1'). rewrite Hf1' in Hf.
+      assert (Hp1 : node_of w1 p <> None) by (eapply moved_keeps_nodes; [exact M|rewrite Hnode; exact Hpn]).
+      destruct (insert_rest_sound F p 0 q w1 w' I1 Hp1 Hf Hk1) as [R I']. split; [|exact I'].
+      exists p, w0, w1, n. split; [exact Hoff|]. split; [|exact R].
+      eapply moved_weaken; [|exact M]. intros P La Lb (-> & HLa & _). split; [reflexivity|]. unfold visible_count.
+      assert (E : filter (vis_id F w0) La = []); [|rewrite E; reflexivity].
+      clear -HLa. induction La as [|a r IH]; [reflexivity|]. cbn [filter]. rewrite (HLa a (or_introl eq_refl)). apply IH. intros y Hy. apply HLa. right. exact Hy.
+    + (* before the first visible child *)
+      destruct (nth_filter_split (vis_id F w) (kids_of w p) 0 y) as (K0 & R0 & Ek & HK0 & Hvy); [rewrite Evis; reflexivity|].
+      assert (Hyk : In y (kids_of w p)) by (rewrite Ek; apply in_or_app; right; left; reflexivity).
+      assert (Hyex : w_find w y <> None) by (apply find_node; eapply in_kids_exists; eassumption).
+      destruct (prepare_inv _ _ _ _ _ _ I Hyex Hfr Hrun1) as (w0 & n & Hoff & I0 & Hl & Ha & Hpar & Hk & Hf & Hfind & _).
+      destruct (add_preceding_one_sound F y n _ w0 w' I0 Hl Ha (Hpar y eq_refl) Hk) as (w1 & M & I1 & Hk1 & Hf1'). rewrite Hf1' in Hf.
+      assert (Hpne : p <> n).
+      { intros ->. destruct src as [m|f s|f name]; cbn [offered] in Hoff.
+        - destruct Hoff as (_ & -> & _). rewrite (kid_inside w n y Hpn Hyk) in Ha. discriminate.
+        - destruct Hoff as (-> & Hnone & _). contradiction.
+        - destruct Hoff as (-> & ns & _ & Hnone & _). contradiction. }
+      assert (Hnode : node_of w0 p = node_of w p) by (apply (offered_node_of _ _ _ _ _ _ Hoff Hpne)).
+      pose proof (offered_vis _ _ _ _ _ p Hoff I Hpn) as Hkv.
+      assert (Hp1 : node_of w1 p <> None) by (eapply moved_keeps_nodes; [exact M|rewrite Hnode; exact Hpn]).
+      destruct (insert_rest_sound F p 0 q w1 w' I1 Hp1 Hf Hk1) as [R I']. split; [|exact I'].
+      exists y, w0, w1, n. split; [exact Hoff|]. split; [|exact R].
+      destruct M as (P & pl & La & Lb & H1 & H2 & (Iv & L1 & -> & HIv) & H4 & H5 & H6).
+      destruct (node_of_kids w0 p) as (pl' & Hnp); [rewrite Hnode; exact Hpn|]. rewrite (kids_of_transfer _ _ _ Hnode), Ek in Hnp.
+      pose proof I0 as [[N0 _] _].
+      assert (Hy1 : In y (La ++ Iv ++ y :: L1)) by (apply in_or_app; right; apply in_or_app; right; left; reflexivity).
+      assert (Hy2 : In y (K0 ++ y :: R0)) by (apply in_or_app; right; left; reflexivity).
+      destruct (parent_unique w0 P pl _ p pl' _ y N0 H2 Hnp Hy1 Hy2) as [-> Eks].
+      pose proof (kid_ids_nodup _ _ _ _ N0 Hnp) as Nk. rewrite app_assoc in Eks.
+      destruct (split_unique (K0 ++ y :: R0) (La ++ Iv) K0 L1 R0 y Nk (eq_sym Eks) eq_refl) as [EK _].
+      exists p, pl, La, (Iv ++ y :: L1). repeat split; auto. unfold visible_count.
+      assert (E : filter (vis_id F w0) La = []); [|rewrite E; reflexivity].
+      assert (HK : filter (vis_id F w) K0 = []) by (destruct (filter (vis_id F w) K0); [reflexivity|discriminate]).
+      assert (HLa : forall z, In z La -> vis_id F w0 z = false).
+      { intros z Hz. rewrite (vis_id_transfer F w w0 z); [|apply Hkv; rewrite Ek, <- EK; apply in_or_app; left; apply in_or_app; left; exact Hz].
+        apply (filter_nil _ _ HK). rewrite <- EK. apply in_or_app. left. exact Hz. }
+      clear -HLa. induction La as [|a r IH]; [reflexivity|]. cbn [filter]. rewrite (HLa a (or_introl eq_refl)). apply IH. intros z Hz. apply HLa. right. exact Hz.
+  - (* after the child at visible index i - 1 *)
+    destruct (nth_error (filter (vis_id F w) (kids_of w p)) n') as [y|] eqn:Ey; [|cbn in Hrun1; discriminate].
+    destruct (nth_filter_split _ _ _ _ Ey) as (K0 & R0 & Ek & HK0 & Hvy).
+    assert (Hyk : In y (kids_of w p)) by (rewrite Ek; apply in_or_app; right; left; reflexivity).
+    assert (Hyex : w_find w y <> None) by (apply find_node; eapply in_kids_exists; eassumption).
+    destruct (prepare_inv _ _ _ _ _ _ I Hyex Hfr Hrun1) as (w0 & n & Hoff & I0 & Hl & Ha & Hpar & Hk & Hf & Hfind & _).
+    cbn [run_a run_fresh] in Hk, Hf. apply andb_true_iff in Hf as [_ Hf].
+    destruct (step_follow w0 y n I0 Hl Ha (Hpar y eq_refl)) as [M I1].
+    assert (Hpne : p <> n).
+    { intros ->. destruct src as [m|f s|f name]; cbn [offered] in Hoff.
+      - destruct Hoff as (_ & -> & _). rewrite (kid_inside w n y Hpn Hyk) in Ha. discriminate.
+      - destruct Hoff as (-> & Hnone & _). contradiction.
+      - destruct Hoff as (-> & ns & _ & Hnone & _). contradiction. }
+    assert (Hnode : node_of w0 p = node_of w p) by (apply (offered_node_of _ _ _ _ _ _ Hoff Hpne)).
+    pose proof (offered_vis _ _ _ _ _ p Hoff I Hpn) as Hkv.
+    assert (Hp0 : node_of w0 p <> None) by (rewrite Hnode; exact Hpn).
+    assert (Hp1 : node_of (apply_a (UAddFollowing y n) w0) p <> None) by (eapply moved_keeps_nodes; [exact M|exact Hp0]).
+    destruct (insert_rest_sound F p (Datatypes.S n') q _ w' I1 Hp1 Hf Hk) as [R I']. split; [|exact I'].
+    exists y, w0, (apply_a (UAddFollowing y n) w0), n. split; [exact Hoff|]. split; [|exact R].
+    assert (Hk0 : kids_of w0 p = K0 ++ y :: R0) by (rewrite (kids_of_transfer _ _ _ Hnode); exact Ek).
+    pose proof (follow_to_split w0 _ n y p K0 R0 I0 M Hp0 Hk0) as M2.
+    eapply moved_weaken; [|exact M2]. intros P La Lb (-> & -> & _). split; [reflexivity|]. unfold visible_count.
+    rewrite filter_app, app_length. cbn [filter].
+    rewrite (vis_id_transfer F w w0 y (Hkv y Hyk)), Hvy. cbn [length].
+    rewrite (filter_vis_transfer F w w0 K0); [rewrite HK0; lia|]. intros z Hz. apply Hkv. rewrite Ek. apply in_or_app. left. exact Hz.
+Qed.
+
+(* ------------------------------------------------------------------ detach, replace_with, item assignment and deletion *)
+Lemma seal_ok p : forall w w', run_a (seal p) w = (w', ROk) -> run_a p w = (w', ROk).
+Proof.
+  induction p as [r|u k IH|k IH]; intros w w'; cbn [seal run_a].
+  - destruct r; cbn [run_a]; intros H; try exact H; discriminate.
+  - apply IH.
+  - apply IH.
+Qed.
+Lemma seal_fresh p : forall w, run_fresh (seal p) w = run_fresh p w.
+Proof. induction p as [r|u k IH|k IH]; intros w; cbn [seal run_fresh]; [destruct r; reflexivity|rewrite IH; reflexivity|apply IH]. Qed.
+
+Definition no_parent (w : world) (x : nid) : Prop := forall P p ks, node_of w P = Some (p, ks) -> ~ In x ks.
+Lemma no_parent_of w x : w_parent w x = None -> no_parent w x.
+Proof. intros H P p ks Hn Hx. apply (node_of_parent w x P p ks Hn Hx H). Qed.
+Lemma detach_noop w x : ainv w -> w_parent w x = None -> apply_a (UDetach x) w = w.
+Proof.
+  intros [[_ S] _] H. cbn [apply_a]. apply (w_rw_parent x (fun l => l) w S) in H.
+  apply (w_rw_dom (g_extract x) (at_parent_of x (fun l => l)) (extract_dom x _) w) in H. rewrite H. reflexivity.
+Qed.
+
+Lemma detach_sound x w w' : ainv w -> run_a (detach x false) w = (w', ROk) ->
+  (detached w w' x \/ (w' = w /\ no_parent w x)) /\ ainv w'.
+Proof.
+  intros I Hrun. unfold detach in Hrun. cbn [run_a] in Hrun.
+  assert (Step : run_a (Upd (UDetach x) (Ret ROk)) w = (w', ROk) -> (detached w w' x \/ (w' = w /\ no_parent w x)) /\ ainv w').
+  { intros H. change (run_a (Upd (UDetach x) (Ret ROk)) w) with (apply_a (UDetach x) w, ROk) in H. injection H as H.
+    subst w'. destruct (w_parent w x) eqn:Ep.
+    - destruct (step_detach w x I) as [D I']; [rewrite Ep; discriminate|]. split; [left; exact D|exact I'].
+    - pose proof (detach_noop w x I Ep) as E. cbn [apply_a] in E. rewrite E.
+      split; [right; split; [reflexivity|apply no_parent_of, Ep]|exact I]. }
+  destruct (w_kind w x) as [[]|]; try (exact (Step Hrun)); [|cbn in Hrun; discriminate].
+  destruct (is_doc_root w x); [cbn in Hrun; discriminate|]. destruct (w_parent w x) eqn:Ep; [exact (Step Hrun)|].
+  cbn [run_a] in Hrun. injection Hrun as <-. split; [right; split; [reflexivity|apply no_parent_of, Ep]|exact I].
+Qed.
+
+Lemma moved_child_has_parent w w1 n x : moved (pos_follow x) w w1 n -> w_parent w1 x <> None.
+Proof.
+  intros (P & p & La & Lb & _ & _ & (L0 & ->) & Hq & _). apply (node_of_parent w1 x P p ((L0 ++ [x]) ++ n :: Lb)).
+  - rewrite Hq, N.eqb_refl. reflexivity.
+  - apply in_or_app. left. apply in_or_app. right. left. reflexivity.
+Qed.
+
+Lemma replace_sound x src w w' : ainv w -> run_fresh (replace_with x src) w = true -> run_a (replace_with x src) w = (w', ROk) ->
+  edit_ok fall w (OReplace x src) w' /\ ainv w'.
+Proof.
+  intros I Hfr Hrun. unfold replace_with in *. cbn [run_a run_fresh] in Hrun, Hfr. destruct (w_parent w x) eqn:Ep; [|cbn in Hrun; discriminate].
+  assert (Hx : w_find w x <> None).
+  { pose proof I as [[N _] _]. destruct (w_parent_node_of _ _ _ N Ep) as [Hn Hin]. apply find_node.
+    apply (in_kids_exists w (iid i) x I); [rewrite Hn; discriminate|unfold kids_of; rewrite Hn; exact Hin]. }
+  destruct (prepare_inv _ _ _ _ _ _ I Hx Hfr Hrun) as (w0 & n & Hoff & I0 & Hl & Ha & Hp & Hk & Hf & _).
+  cbn [run_a run_fresh] in Hk, Hf. apply andb_true_iff in Hf as [_ Hf].
+  destruct (step_follow w0 x n I0 Hl Ha (Hp x eq_refl)) as [M I1]. apply seal_ok in Hk.
+  destruct (detach_sound x _ w' I1 Hk) as [[D|[_ Hno]] I'].
+  - split; [|exact I']. cbn [edit_ok]. exists w0, (apply_a (UAddFollowing x n) w0), n. auto.
+  - exfalso.
+    destruct M as (P & p & La & Lb & _ & _ & (L0 & ->) & Hq & _). apply (Hno P p ((L0 ++ [x]) ++ n :: Lb)).
+    + rewrite Hq, N.eqb_refl. reflexivity.
+    + apply in_or_app. left. apply in_or_app. right. left. reflexivity.
+Qed.
+
+Lemma resolve_index_spec F w p i y : NoDup (world_ids_a w) -> resolve_index F w p i = Some y ->
+  nth_visible F w p (Z.to_nat (if (i <? 0)%Z then Z.of_nat (visible_count F w (kids_of w p)) + i else i)%Z) = Some y.
+Proof.
+  intros N. unfold resolve_index, nth_visible, visible_count. rewrite (vis_children_ids F w p N).
+  destruct (_ <? 0)%Z; [discriminate|]. auto.
+Qed.
+
+Lemma delitem_sound F p i w w' : ainv w -> run_a (del_item F p i) w = (w', ROk) -> edit_ok F w (ODelItem p i) w' /\ ainv w'.
+Proof.
+  intros I Hrun. unfold del_item in Hrun. destruct (on_tag_inv _ _ _ _ Hrun) as (Hp & Hrun1 & _). cbn [run_a] in Hrun1.
+  pose proof I as [[N _] _]. destruct (resolve_index F w p i) as [y|] eqn:Er; [|cbn in Hrun1; discriminate].
+  pose proof (resolve_index_spec F w p i y N Er) as Hy. destruct (detach_sound y w w' I Hrun1) as [[D|[_ Hno]] I'].
+  - split; [|exact I']. cbn [edit_ok]. exists y. auto.
+  - exfalso. unfold nth_visible in Hy. destruct (nth_filter_split _ _ _ _ Hy) as (K0 & R & Ek & _).
+    pose proof (kind_is_exists _ _ _ Hp) as Hpex. apply find_node in Hpex. destruct (node_of_kids _ _ Hpex) as (pl & Hn).
+    apply (Hno p pl _ Hn). rewrite Ek. apply in_or_app. right. left. reflexivity.
+Qed.
+
+Lemma setitem_sound F p i src w w' : ainv w -> run_fresh (set_item F p i src) w = true ->
+  run_a (set_item F p i src) w = (w', ROk) ->
+  (filter (vis_id F w) (kids_of w p) = [] -> exists n, src = SNode n) ->
+  edit_ok F w (OSetItem p i src) w' /\ ainv w'.
+Proof.
+  intros I Hfr Hrun Hguard. unfold set_item in *. destruct (on_tag_inv _ _ _ _ Hrun) as (Hp & Hrun1 & Hf1). rewrite Hf1 in Hfr.
+  clear Hrun Hf1. cbn [run_a run_fresh] in Hrun1, Hfr. pose proof I as [[N S] T].
+  pose proof (vis_children_ids F w p N) as Ev. unfold resolve_index in *. rewrite Ev in *. cbn [edit_ok].
+  destruct (Nat.eqb (length (filter (vis_id F w) (kids_of w p))) 0 && (i =? 0)%Z)%bool eqn:E0.
+  - apply andb_true_iff in E0 as [E0 Ei]. apply Nat.eqb_eq in E0. apply Z.eqb_eq in Ei. subst i.
+    assert (Evis : filter (vis_id F w) (kids_of w p) = []) by (destruct (filter _ _); [reflexivity|discriminate]).
+    rewrite Evis. destruct (Hguard Evis) as (n & ->). unfold lone in *. destruct (is_loose w n) eqn:El; [|cbn in Hrun1; discriminate].
+    unfold no_cycle in *. cbn [run_a run_fresh] in Hrun1, Hfr. destruct (is_ancestor_or_self w n p) eqn:Ea; [cbn in Hrun1; discriminate|].
+    destruct (add_first_child_sound F p n _ w w' I El Ea Hp Evis Hrun1) as (w1 & M & I1 & Hk1 & _). cbn [run_a] in Hk1. injection Hk1 as <-.
+    split; [|exact I1]. exists w, n. split; [split; [reflexivity|split; [reflexivity|apply is_loose_in, El]]|].
+    eapply moved_weaken; [|exact M]. intros P La Lb (-> & HLa & _). split; [reflexivity|]. unfold visible_count.
+    assert (E : filter (vis_id F w) La = []); [|rewrite E; reflexivity].
+    clear -HLa. induction La as [|a r IH]; [reflexivity|]. cbn [filter]. rewrite (HLa a (or_introl eq_refl)). apply IH. intros y Hy. apply HLa. right. exact Hy.
+  - destruct ((i <? 0) || (Z.of_nat (length (filter (vis_id F w) (kids_of w p))) <=? i))%Z%bool eqn:Er; [cbn in Hrun1; discriminate|].
+    apply orb_false_iff in Er as [Eneg Ele]. rewrite Eneg in *.
+    destruct (nth_error (filter (vis_id F w) (kids_of w p)) (Z.to_nat i)) as [y|] eqn:Ey.
+    2:{ destruct (i <? 0)%Z; cbn in Hrun1; discriminate. }
+    assert (Hrun2 : run_a (replace_with y src) w = (w', ROk)) by (destruct (i <? 0)%Z; [discriminate|exact Hrun1]).
+    assert (Hfr2 : run_fresh (replace_with y src) w = true) by (destruct (i <? 0)%Z; [discriminate|exact Hfr]).
+    destruct (replace_sound y src w w' I Hfr2 Hrun2) as [(w0 & w1 & n & H1 & H2 & H3) I'].
+    split; [|exact I']. destruct (filter (vis_id F w) (kids_of w p)) as [|v0 vs] eqn:Evis; [destruct (Z.to_nat i); discriminate|].
+    exists y, w0, w1, n. unfold nth_visible. rewrite Evis. auto.
+Qed.
+
+(* ------------------------------------------------------------------ content assignment, merging *)
+Lemma content_sound x s w w' : ainv w -> roots_tag w -> run_a (script fall (OSetContent x s)) w = (w', ROk) ->
+  edit_ok fall w (OSetContent x s) w'.
+Proof.
+  intros [[N S] T] R Hrun. cbn [script run_a] in Hrun. destruct (kind_is w x is_textk) eqn:Ek; [|cbn in Hrun; discriminate].
+  cbn [run_a] in Hrun. injection Hrun as <-. unfold kind_is, w_kind in Ek. destruct (w_find w x) as [t|] eqn:Ef; [|discriminate]. cbn in Ek.
+  assert (Hkt : ikind t = NText) by (destruct (ikind t); try discriminate; reflexivity).
+  pose proof (w_find_node_of w x) as Hn. rewrite Ef in Hn. cbn [option_map entry_of] in Hn.
+  unfold ikind in Hkt. destruct (ipayload t) as [| old | |] eqn:Ep; try discriminate. unfold entry_of in Hn. rewrite Ep in Hn.
+  destruct (set_content_effect x s w old (map iid (ikids t)) N S Hn) as (H1 & H2 & H3).
+  { eapply text_place; try eassumption. unfold ikind. rewrite Ep. reflexivity. }
+  cbn [edit_ok]. exists old, (map iid (ikids t)). auto.
+Qed.
+Lemma merge_sound p w w' : run_a (script fall (OMerge p)) w = (w', ROk) -> edit_ok fall w (OMerge p) w'.
+Proof.
+  cbn [script]. intros Hrun. destruct (on_tag_inv _ _ _ _ Hrun) as (_ & H & _). cbn [run_a apply_a] in H. injection H as <-. reflexivity.
+Qed.
+
+(* ------------------------------------------------------------------ detach(retain_child_nodes=True) *)
+Definition all_detached : list nid -> world -> world -> Prop :=
+  fix all_detached (l : list nid) (a b : world) : Prop :=
+    match l with [] => b = a | c :: r => exists m, detached a m c /\ all_detached r m b end.
+
+Lemma detach_all_sound x px : forall l k w w', ainv w -> node_of w x = Some (px, l) ->
+  run_a (detach_all l k) w = (w', ROk) ->
+  exists w2, all_detached l w w2 /\ ainv w2 /\ run_a k w2 = (w', ROk) /\ run_fresh (detach_all l k) w = run_fresh k w2 /\
+             (forall q, q <> x -> node_of w2 q = node_of w q) /\ node_of w2 x = Some (px, []) /\
+             (forall c, In c l -> is_loose w2 c = true) /\ doc_shape w2 = doc_shape w.
+Proof.
+  induction l as [|c r IH]; intros k w w' I Hx Hrun; cbn [detach_all run_a run_fresh] in *.
+  - exists w. split; [reflexivity|]. split; [exact I|]. split; [exact Hrun|]. split; [reflexivity|]. split; [reflexivity|].
+    split; [exact Hx|]. split; [intros c []|reflexivity].
+  - pose proof I as [[N S] T].
+    assert (Hp : w_parent w c <> None) by (apply (node_of_parent w c x px (c :: r) Hx); left; reflexivity).
+    destruct (step_detach w c I Hp) as [D I1]. pose proof D as (P & p & La & Lb & H1 & H2 & H3 & H4 & H5).
+    assert (Hc1 : In c (La ++ c :: Lb)) by (apply in_or_app; right; left; reflexivity).
+    destruct (parent_unique w P p _ x px _ c N H1 Hx Hc1 (or_introl eq_refl)) as [-> Eks].
+    pose proof (kid_ids_nodup _ _ _ _ N Hx) as Nk.
+    destruct (split_unique (c :: r) La [] Lb r c Nk (eq_sym Eks) eq_refl) as [-> ->]. cbn [app] in *.
+    assert (Hx1 : node_of (apply_a (UDetach c) w) x = Some (px, r)).
+    { rewrite H3, N.eqb_refl. rewrite Hx in H1. injection H1 as <-. reflexivity. }
+    destruct (IH k _ w' I1 Hx1 Hrun) as (w2 & A & I2 & Hk & Hf & Hq & Hx2 & Hl & Hd). exists w2.
+    split; [exists (apply_a (UDetach c) w); auto|]. split; [exact I2|]. split; [exact Hk|]. split; [exact Hf|].
+    split; [|split; [exact Hx2|split]].
+    + intros q Hne. rewrite (Hq q Hne), H3. destruct (N.eqb_spec x q); [congruence|reflexivity].
+    + intros c' [<-|Hc']; [|apply Hl, Hc'].
+      (* c stays parentless through the remaining detaches: loose_ids only grow *)
+      clear -A H4. assert (G : forall l a b, all_detached l a b -> forall y, In y (loose_ids a) -> In y (loose_ids b)).
+      { induction l as [|c0 l IHl]; intros a b Hab y Hy; cbn [all_detached] in Hab; [subst; exact Hy|].
+        destruct Hab as (m & (P0 & p0 & La0 & Lb0 & _ & _ & _ & Hlo & _) & Hm). apply (IHl m b Hm). rewrite Hlo. apply in_or_app. left. exact Hy. }
+      assert (Hin : In c (loose_ids w2)) by (apply (G r _ _ A); rewrite H4; apply in_or_app; right; left; reflexivity).
+      unfold is_loose. unfold loose_ids in Hin. apply in_map_iff in Hin as (t & Ht & Hin). apply existsb_exists. exists t. split; [exact Hin|].
+      unfold has_id. apply N.eqb_eq, Ht.
+    + rewrite Hd. exact H5.
+Qed.
+
+Lemma kind_id_w_kind w x : kind_id w x = w_kind w x.
+Proof. unfold kind_id, w_kind. rewrite w_find_node_of. destruct (w_find w x); reflexivity. Qed.
+Lemma children_kids w x : map iid (children_ids w x) = kids_of w x.
+Proof.
+  unfold children_ids, kids_of. rewrite w_find_node_of. destruct (w_find w x); reflexivity.
+Qed.
+
+Lemma detach_retain_sound x w w' : ainv w -> run_fresh (detach x true) w = true -> run_a (detach x true) w = (w', ROk) ->
+  edit_ok fall w (ODetach x true) w'.
+Proof.
+  intros I Hfr Hrun. pose proof I as [[N S] T]. unfold detach in *. cbn [run_a run_fresh] in Hrun, Hfr. cbn [edit_ok].
+  assert (NonTag : w_kind w x <> Some NTag -> run_a (Upd (UDetach x) (Ret ROk)) w = (w', ROk) ->
+    (w' = w /\ (forall P p ks, node_of w P = Some (p, ks) -> ~ In x ks)) \/
+    (exists P p La Lb w1, node_of w P = Some (p, La ++ x :: Lb) /\ ~ In x La /\ detached w w1 x /\ (kind_id w x <> Some NTag -> w' = w1) /\
+       (kind_id w x = Some NTag -> False))).
+  { intros Hk H. change (run_a (Upd (UDetach x) (Ret ROk)) w) with (apply_a (UDetach x) w, ROk) in H. injection H as H. subst w'.
+    destruct (w_parent w x) eqn:Ep.
+    - right. destruct (step_detach w x I) as [D _]; [rewrite Ep; discriminate|]. pose proof D as (P & p & La & Lb & H1 & H2 & _).
+      exists P, p, La, Lb, (apply_a (UDetach x) w). repeat split; auto. rewrite kind_id_w_kind. exact Hk.
+    - left. pose proof (detach_noop w x I Ep) as E. cbn [apply_a] in E. rewrite E. split; [reflexivity|apply no_parent_of, Ep]. }
+  destruct (w_kind w x) as [k|] eqn:Ek; [|cbn in Hrun; discriminate].
+  destruct k.
+  2-4: (destruct (NonTag ltac:(discriminate) Hrun) as [L|(P & p & La & Lb & w1 & H1 & H2 & H3 & H4 & H5)];
+        [left; exact L|right; exists P, p, La, Lb, w1; repeat split; auto; intros Hc; destruct (H5 Hc)]).
+  clear NonTag. destruct (is_doc_root w x); [cbn in Hrun; discriminate|].
+  destruct (w_parent w x) as [t|] eqn:Ep; [|cbn in Hrun; discriminate]. cbn [run_a run_fresh] in Hrun, Hfr.
+  right. destruct (step_detach w x I) as [D I1]; [rewrite Ep; discriminate|]. pose proof D as (P & p & La & Lb & H1 & H2 & H3 & H4 & H5).
+  destruct (w_parent_node_of _ _ _ N Ep) as [Hnt Hxt]. unfold entry_of in Hnt.
+  assert (Hx1 : In x (La ++ x :: Lb)) by (apply in_or_app; right; left; reflexivity).
+  destruct (parent_unique w P p _ (iid t) _ _ x N H1 Hnt Hx1 Hxt) as [-> Eks].
+  (* the index the code computes is the number of children in front of x *)
+  assert (Hidx : index_of x (ikids t) = length La).
+  { assert (Hex : existsb (has_id x) (ikids t) = true) by (rewrite existsb_ids; apply existsb_exists; exists x; split; [exact Hxt|apply N.eqb_refl]).
+    destruct (in_split_first _ _ Hex) as (a & xk & b & Ekids & Hxk & Ha). rewrite Ekids, (index_of_split _ _ _ _ Hxk Ha).
+    rewrite Ekids, map_app in Eks. cbn [map] in Eks. unfold has_id in Hxk. apply N.eqb_eq in Hxk. rewrite Hxk in Eks.
+    pose proof (kid_ids_nodup _ _ _ _ N H1) as Nk.
+    destruct (split_unique (La ++ x :: Lb) La (map iid a) Lb (map iid b) x Nk eq_refl Eks) as [-> _]. symmetry. apply map_length. }
+  rewrite Hidx, children_kids in *.
+  exists (iid t), p, La, Lb, (apply_a (UDetach x) w). split; [exact H1|]. split; [exact H2|]. split; [exact D|].
+  split; [intros Hc; rewrite kind_id_w_kind, Ek in Hc; contradiction|]. intros _.
+  (* x keeps its entry when it leaves its parent *)
+  destruct (node_of_kids w x) as (px & Hnx); [rewrite w_find_node_of; unfold w_kind in Ek; destruct (w_find w x); [discriminate|discriminate]|].
+  assert (Hne : iid t <> x) by (intros E; rewrite E in H1; apply (not_own_kid w x p _ N H1); apply in_or_app; right; left; reflexivity).
+  assert (Hnx1 : node_of (apply_a (UDetach x) w) x = Some (px, kids_of w x)).
+  { rewrite H3. destruct (N.eqb_spec (iid t) x); [contradiction|exact Hnx]. }
+  destruct (detach_all_sound x px (kids_of w x) _ _ w' I1 Hnx1 Hrun) as (w2 & A & I2 & Hk & Hf & Hq & Hx2 & Hl & Hd).
+  rewrite Hf in Hfr. exists w2. split; [exact A|].
+  destruct (kids_of w x) as [|c r] eqn:Ekx.
+  - cbn [run_a] in Hk. injection Hk as <-. reflexivity.
+  - apply seal_ok in Hk. rewrite seal_fresh in Hfr. cbn [map] in Hk, Hfr.
+    destruct (insert_sound fall (iid t) (Z.of_nat (length La)) (SNode c :: map SNode r) w2 w' I2 Hfr Hk) as [(ctx & w0 & w3 & n & Hoff & M & R) _].
+    cbn [offered] in Hoff. destruct Hoff as (-> & -> & _). rewrite Nat2Z.id in M, R. exists w3. split; [exact M|].
+    destruct r as [|c2 r2]; [exact R|]. cbn [map] in R. exact R.
+Qed.
+
+(* ------------------------------------------------------------------ astep_sound *)
+Definition target_exists (w : world) (o : op) : Prop :=
+  match o with OAddFollowing x (_ :: _) | OAddPreceding x (_ :: _) => w_find w x <> None | _ => True end.
+(* finding 18: item assignment of a string / tag() to a node without visible children does nothing *)
+Definition setitem_guard (F : filt) (w : world) (o : op) : Prop :=
+  match o with
+  | OSetItem p _ src => filter (vis_id F w) (kids_of w p) = [] -> exists n, src = SNode n
+  | _ => True
+  end.
+
+Theorem astep_sound F w o w' : ainv w -> roots_tag w -> target_exists w o -> run_fresh (script F o) w = true ->
+  setitem_guard F w o -> astep F w o = (w', ROk) -> edit_ok F w o w'.
+Proof.
+  intros I R Ht Hfr Hg Hrun. unfold astep in Hrun. destruct o as [x ns|x ns|p ns|p ns|p i ns|x r|x n|p i n|p i|x s|p]; cbn [script] in Hrun, Hfr.
+  - destruct ns as [|s r]; [cbn in Hrun; injection Hrun as <-; reflexivity|]. apply (add_following_sound (s :: r) x w w' I Ht Hfr Hrun).
+  - destruct ns as [|s r]; [cbn in Hrun; injection Hrun as <-; reflexivity|]. apply (add_preceding_sound F (s :: r) x w w' I Ht Hfr Hrun).
+  - apply (append_sound F p ns w w' I Hfr Hrun).
+  - destruct (insert_sound F p 0%Z ns w w' I Hfr Hrun) as [H _]. cbn [edit_ok]. destruct ns as [|s r]; [destruct H|exact H].
+  - destruct (insert_sound F p i ns w w' I Hfr Hrun) as [H _]. cbn [edit_ok]. destruct ns as [|s r]; [destruct H|exact H].
+  - destruct r.
+    + apply (detach_retain_sound x w w' I Hfr Hrun).
+    + destruct (detach_sound x w w' I Hrun) as [[D|[E Hn]] _]; cbn [edit_ok]; [left; exact D|right; split; [exact E|exact Hn]].
+  - apply (replace_sound x n w w' I Hfr Hrun).
+  - apply (setitem_sound F p i n w w' I Hfr Hrun Hg).
+  - apply (delitem_sound F p i w w' I Hrun).
+  - apply (content_sound x s w w' I R Hrun).
+  - apply (merge_sound p w w' Hrun).
+Qed.
+
+(* finding 18, against the relational specification: a call that leaves the world as it was cannot have put a new node
+   into it *)
+Lemma created_moved_changes Pos w w0 f pl : created w w0 f pl -> moved Pos w0 w f -> False.
+Proof.
+  intros (Hnone & Hq0 & _) (P & p & La & Lb & _ & HP & _ & Hq & _).
+  pose proof (Hq P) as H. rewrite N.eqb_refl in H. rewrite Hq0 in HP. destruct (N.eqb_spec f P) as [E|E].
+  - subst P. rewrite Hnone in H. discriminate.
+  - rewrite HP in H. injection H as H. apply (f_equal (@length nid)) in H. rewrite !app_length in H. cbn in H. lia.
+Qed.
+Theorem setitem_childless_violates F w p i f s : filter (vis_id F w) (kids_of w p) = [] ->
+  ~ edit_ok F w (OSetItem p i (SStr f s)) w.
+Proof.
+  intros Hv H. cbn [edit_ok] in H. rewrite Hv in H. destruct H as (w0 & n & (-> & C) & M). eapply created_moved_changes; eassumption.
+Qed.
